@@ -36,6 +36,12 @@ from harness import core
 OFF = -2
 TAUS = [2.0**-6, 2.0**-3, 0.25, 1.0, 0.05, 0.1, 1.0 / 3.0, 0.7, 4.0]
 DEL_TAUS = [2.0**-4, 0.25, 0.5, 1.0, 2.0, 0.05, 0.1, 1.0 / 3.0]
+# SCALE: every instance is realised at tick length tau * 2^k for exponents k taken in rotation from these lists (multiplying every
+# coordinate by a power of two is exact, so nothing the mapper publishes may change).  Delaunay: the unchanged tree (scipy/qhull
+# included) is correct for 2^-500 .. 2^+200 and over/underflows beyond; rectangular: overlay_grid's absolute 1e-8 buffer limits
+# the tick to about 2^-19 .. 2^+17 (see the assumptions), so tau * 2^k stays inside 2^-16 .. 2^+12.
+DEL_SCALES = [-100, -60, -24, -12, 0, 8, 20, 60, 100]
+RECT_SCALES = [-10, -8, -5, 0, 4, 8, 10]
 FINE_E = 65536  # positions may carry an exact dyadic offset fine/FINE_E (a hair off an edge: 2^-8 .. 2^-16 of an integer normal)
 JIT = 0.02  # jitter (in ticks) of rectangular positions: < 1/(2*6) - margin, the cell of a point is constant on its open cell
 MESHES = [(3, 3), (3, 4), (4, 3), (5, 3)]
@@ -52,6 +58,7 @@ MC_CONSTS = """CONSTANTS
 MC_CFG = MC_CONSTS + """SPECIFICATION Spec
 INVARIANT InputsOffBoundaries
 INVARIANT CellsCoverTheBox
+INVARIANT CellsScaleAndShiftFree
 INVARIANT RowsNonNegative
 INVARIANT RowsSumToOne
 INVARIANT EntryFormula
@@ -66,6 +73,7 @@ INVARIANT SomeAnswerIsValid
 INVARIANT ValidTilesExactly
 INVARIANT BarycentricWellDefined
 INVARIANT ProbesSeparateTheSides
+INVARIANT DelaunayScaleAndShiftFree
 INVARIANT SimplexAdjacencySymmetric
 """
 TRACE_CFG = """CONSTANTS
@@ -324,7 +332,7 @@ def gen_rect(rng, idx, big=False):
                 "tau": float(TAUS[int(rng.integers(0, len(TAUS)))]), "origin": [float(rng.choice([0.0, 0.0, -3.25, 17.3])), float(rng.choice([0.0, 1.5, -0.7]))],
                 "jseed": int(rng.integers(0, 2**31 - 1)), "via": "mesh" if rng.random() < 0.5 else "direct",
                 "order": [int(x) for x in rng.permutation(4)], "scalar_sub": bool(len(set(sub)) == 1 and rng.random() < 0.5),
-                "signals": _draw_signals(rng, 0.4)}
+                "signals": _draw_signals(rng, 0.4), "scales": [int(rng.choice(RECT_SCALES))]}
     raise core.MachineryError("could not draw a rectangular instance")
 
 
@@ -335,7 +343,8 @@ def complete_dumped(inp, key):
             "my": int(inp["my"]), "mx": int(inp["mx"]), "mask": _mask_for(n, key), "tau": float(TAUS[key % len(TAUS)]),
             "origin": [[0.0, 0.0], [-3.25, 1.5], [17.3, -0.7]][key % 3], "jseed": key % (2**31 - 1), "via": "mesh" if key % 2 else "direct",
             "order": [int(x) for x in np.random.default_rng(key % 97).permutation(4)], "scalar_sub": bool(len(set(inp["sub"])) == 1 and key % 4 < 2),
-            "signals": _draw_signals(np.random.default_rng(key), 0.3)}
+            "signals": _draw_signals(np.random.default_rng(key), 0.3),
+            "scales": [RECT_SCALES[key % 7], RECT_SCALES[(key % 7 + 1 + (key // 7) % 6) % 7]]}
 
 
 def _draw_plain_vertices(rng):
@@ -460,7 +469,7 @@ def gen_delaunay(rng, idx, fan=False):
                 "tau": float(DEL_TAUS[int(rng.integers(0, len(DEL_TAUS)))]), "origin": [float(oy), float(ox)], "jseed": 0,
                 "via": "mesh" if rng.random() < 0.5 else "direct", "order": [int(x) for x in rng.permutation(4)],
                 "scalar_sub": bool(len(set(sub)) == 1 and rng.random() < 0.5), "signals": _draw_signals(rng, 0.6),
-                "fine": fine, "E": FINE_E}
+                "fine": fine, "E": FINE_E, "scales": sorted(int(x) for x in rng.choice(DEL_SCALES, size=2, replace=False))}
     raise core.MachineryError("could not draw a Delaunay instance")
 
 
@@ -473,7 +482,8 @@ def inst_from_del_dump(d, idx):
             "fine": [[int(w["q"][2]), int(w["q"][3])] for w in want], "E": FINE_E, "V": [[int(v[0]), int(v[1])] for v in d["V"]],
             "mask": _mask_for(n, key, frame=11), "tau": float(DEL_TAUS[key % len(DEL_TAUS)]), "origin": [[0.0, 0.0], [-3.0, 5.0]][key % 2], "jseed": 0,
             "via": "mesh" if key % 2 else "direct", "order": [int(x) for x in np.random.default_rng(key % 97).permutation(4)],
-            "scalar_sub": bool(key % 4 < 2), "signals": _draw_signals(np.random.default_rng(key), 0.3)}
+            "scalar_sub": bool(key % 4 < 2), "signals": _draw_signals(np.random.default_rng(key), 0.3),
+            "scales": [DEL_SCALES[(key + j * 4) % len(DEL_SCALES)] for j in range(3)]}
 
 
 def compare_del(rec, want):
@@ -518,10 +528,11 @@ def build_mapper(inst):
     m = inst["mask"]
     mk = np.ones(m["h"] * m["w"], dtype=bool)
     mk[m["u"]] = False
-    mask = aa.Mask2D(mask=mk.reshape(m["h"], m["w"]), pixel_scales=1.0)
+    k2 = 2.0 ** int(inst.get("scale", 0))
+    mask = aa.Mask2D(mask=mk.reshape(m["h"], m["w"]), pixel_scales=k2)
     sub = inst["sub"]
     over = aa.OverSamplerUniform(mask=mask, sub_size=int(sub[0]) if inst.get("scalar_sub") else np.array(sub, dtype=int))
-    tau = inst["tau"]
+    tau = inst["tau"] * k2  # the tick length of this realisation
     # the origin is given in ticks: the lattice is origin + tau * Z^2
     off = np.array(inst["origin"], dtype=float) * tau
     pos = np.array(inst["pos"], dtype=float)
@@ -562,8 +573,28 @@ def _ints(a, scale, offl, name, tol=1e-6):
     return r.astype(np.int64)
 
 
+def records_of(inst):
+    """the instance realised at each of its scales; realisations with the same abstraction share one record (field `scales`)"""
+    out, errs = [], []
+    for k in inst.get("scales") or [0]:
+        try:
+            rec = record_of(dict(inst, scale=int(k)))
+        except core.MachineryError:
+            raise
+        except Exception as e:  # the real code raised on a legal instance
+            errs.append(f"at scale 2^{k}: {type(e).__name__}: {e}")
+            continue
+        for o in out:
+            if all(o[f] == rec[f] for f in rec if f != "scales"):
+                o["scales"].append(int(k))
+                break
+        else:
+            out.append(rec)
+    return out, errs
+
+
 def record_of(inst):
-    """run the real code on the instance and abstract everything a user reads from the mapper"""
+    """run the real code on one realisation of the instance and abstract everything a user reads from the mapper"""
     mp = build_mapper(inst)
     reads = {}
     names = ["psw", "M", "uniq", "nbr"]
@@ -593,7 +624,7 @@ def record_of(inst):
     P = inst["my"] * inst["mx"] if rect else len(inst["V"])
     fine = inst.get("fine") or [[0, 0] for _ in inst["pos"]]
     E = int(inst.get("E", 1))
-    rec = {"kind": inst["kind"], "id": inst["id"], "sub": sub, "pos": inst["pos"], "fine": fine, "E": E, "P": P}
+    rec = {"kind": inst["kind"], "id": inst["id"], "scales": [int(inst.get("scale", 0))], "sub": sub, "pos": inst["pos"], "fine": fine, "E": E, "P": P}
     if rect:
         rec["my"], rec["mx"] = inst["my"], inst["mx"]
     else:
@@ -670,26 +701,23 @@ def sig_of(inst):
 
 
 def _replay_group(args):
-    """S->C for a group of (instance, prediction) pairs: returns [(record | None, mismatch | None, error | None)]"""
+    """S->C for a group of (instance, prediction) pairs: returns, per instance, ([(record, mismatch | None)], [errors])"""
     out = []
     for inst, pred in args:
-        try:
-            rec = record_of(inst)
-        except core.MachineryError:
-            raise
-        except Exception as e:  # the real code raised on a legal instance
-            out.append((None, None, f"{type(e).__name__}: {e}"))
-            continue
-        mism = None
-        if pred is not None and "want" in pred:
-            mism = compare_del(rec, pred["want"])
-        elif pred is not None:
-            cells = [row[0] if row else OFF for row in rec["map"]]
-            if cells != pred["cells"]:
-                mism = {"what": "pix_sub_weights.mappings", "predicted": pred["cells"], "real": cells}
-            elif rec["M"] != pred["m"]:
-                mism = {"what": "mapping_matrix * sub^2", "predicted": pred["m"], "real": rec["M"]}
-        out.append((rec, mism, None))
+        recs, errs = records_of(inst)
+        judged = []
+        for rec in recs:
+            mism = None
+            if pred is not None and "want" in pred:
+                mism = compare_del(rec, pred["want"])
+            elif pred is not None:
+                cells = [row[0] if row else OFF for row in rec["map"]]
+                if cells != pred["cells"]:
+                    mism = {"what": "pix_sub_weights.mappings", "predicted": pred["cells"], "real": cells}
+                elif rec["M"] != pred["m"]:
+                    mism = {"what": "mapping_matrix * sub^2", "predicted": pred["m"], "real": rec["M"]}
+            judged.append((rec, mism))
+        out.append((judged, errs))
     return out
 
 
@@ -805,22 +833,25 @@ def run(ctx):
     pairs += [(b, None) for b in big] + [(d, None) for d in dels]
     insts, recs = [], []
     n_mism = [0]
+    n_real = [0]
 
     def replay_pairs(prs):
         groups = [prs[k : k + 40] for k in range(0, len(prs), 40)]
         for grp, part in zip(groups, core.pmap(_replay_group, groups)):
-            for (inst, pred), (rec, mism, err) in zip(grp, part):
+            for (inst, pred), (judged, errs) in zip(grp, part):
                 shape = f"{inst['my']}x{inst['mx']} mesh" if inst["kind"] == "rect" else f"{len(inst['V'])} vertices"
-                if err is not None:
-                    ctx.violation(sig_of(inst) + "/raised", f"{inst['kind']} mapper raised on a legal instance: {err}", {"inst": inst, "error": err}, cls="raised")
-                    continue
-                if mism is not None:
-                    n_mism[0] += 1
-                    ctx.violation(sig_of(inst) + ("/points-near-edges" if inst["kind"] == "delaunay" else ""),
-                                  f"replay of a Mapper.tla state: {mism['what']} differs from the machine's prediction ({shape}, sub={inst['sub'][:12]})",
-                                  {"inst": inst, "record": rec, "mismatch": mism}, cls="replay:" + mism["what"])
-                insts.append(inst)
-                recs.append(rec)
+                for err in errs:
+                    ctx.violation(sig_of(inst) + "/raised", f"{inst['kind']} mapper raised on a legal instance {err}", {"inst": inst, "error": err}, cls="raised")
+                for rec, mism in judged:
+                    n_real[0] += len(rec["scales"])
+                    if mism is not None:
+                        n_mism[0] += 1
+                        ctx.violation(sig_of(inst) + ("/points-near-edges" if inst["kind"] == "delaunay" else ""),
+                                      f"replay of a Mapper.tla state at scales 2^{rec['scales']}: {mism['what']} differs from the machine's prediction "
+                                      f"({shape}, sub={inst['sub'][:12]})", {"inst": dict(inst, scales=rec["scales"]), "record": rec, "mismatch": mism},
+                                      cls="replay:" + mism["what"])
+                    insts.append(dict(inst, scales=rec["scales"]))
+                    recs.append(rec)
 
     replay_pairs(pairs)
     th.join()
@@ -876,7 +907,7 @@ def run(ctx):
 
 def replay(ctx, rp):
     inst = rp["inst"]
-    rec = record_of(inst)
-    rej = validate(ctx, [inst], [rec], "C06-replay")
-    print("replayed 1 record; rejected clauses:", [r["clauses"] for r in rej])
+    recs, errs = records_of(inst)
+    rej = validate(ctx, [inst] * len(recs), recs, "C06-replay")
+    print(f"replayed the instance at scales 2^{inst.get('scales') or [0]}: {len(recs)} distinct records; raised: {errs}; rejected clauses:", [r["clauses"] for r in rej])
     return ctx.finish()
